@@ -37,12 +37,21 @@ def c13():
 
 
 # ------------------------------------------------------------------------------------------ instances
-def make_spec(E, fp, name, rng):
+def make_spec(E, fp, name, rng, tap=None, i=0):
     import gen
     if name == "search_mpc":
         return E.spec_mpc(fp, [[u, v, 1] for u, v in gen.rand_dag(rng, 6).edges()], False)
     if name == "search_mpcc":
         return E.spec_mpc(fp, [[u, v, 1] for u, v, _ in E.flow_cyclic(rng)], True)
+    if name in ("search_mfdc_main", "search_mfd_main") and tap is not None and i % 3 == 2:
+        # instances whose guessed-weights answer has more routes than the minimum (the engine's gw_gap_instance), guessed weights on
+        cyc = name == "search_mfdc_main"
+        edges = E.gw_gap_instance(fp, tap, rng, cyc)
+        if edges is not None:
+            opts = {"optimize_with_guessed_weights": True} if cyc or i % 2 else {"optimize_with_guessed_weights": True, "optimize_with_greedy": False}
+            sp = E.spec_mfdc(fp, edges, opts, timed=True) if cyc else E.spec_mfd(fp, edges, opts)
+            sp.exhaust = False
+            return sp
     if name == "search_mfdc_main":
         return E.spec_mfdc(fp, E.flow_cyclic(rng), rng.choice(E.MFDC_OPTS), timed=True)
     if name == "search_mfd_main":
@@ -275,7 +284,7 @@ def one(ctx, E, fp, tap, name, build, common_ok, common_log):
     for i in range(ctx.budget(16, 160) if name == "search_npo" else ctx.budget(5, 50) if name in ("search_mfdc_main", "search_mfd_main") else ctx.budget(6, 60)):
         rng = ctx.rng(STREAM[name], i)
         E.set_route(i % 2 == 1)
-        spec = make_spec(E, fp, name, rng); spec.inp = dict(spec.inp, alarm_route=E.alarm_route())
+        spec = make_spec(E, fp, name, rng, tap, i); spec.inp = dict(spec.inp, alarm_route=E.alarm_route())
         P = params(name, spec)
         nat = E.observe(tap, spec, {})
         for obs in [nat] + [E.observe(tap, spec, inj, oa) for inj, oa in plans_of(E, nat, spec)]:
@@ -309,7 +318,7 @@ def one(ctx, E, fp, tap, name, build, common_ok, common_log):
         for i in range(ctx.budget(40, 400)):
             rng = ctx.rng("gen13-search-" + name, i)
             E.set_route(i % 2 == 1)
-            spec = make_spec(E, fp, name, rng); spec.inp = dict(spec.inp, alarm_route=E.alarm_route())
+            spec = make_spec(E, fp, name, rng, tap, i); spec.inp = dict(spec.inp, alarm_route=E.alarm_route())
             P = params(name, spec)
             nat = E.observe(tap, spec, {})
             for obs in [nat] + [E.observe(tap, spec, inj, oa) for inj, oa in plans_of(E, nat, spec)]:
